@@ -620,11 +620,11 @@ pub fn run(args: &Args) -> i32 {
     )
     .assume("a Secp256k1 intent signature carries no key: it is 'valid' for whatever key it recovers to; such a key is never one of the harness keys unless the harness key really signed that hash")
     .assume("the Secp256k1 recovery id is not part of the notary signature being verified (it is only needed for recovery)")
-    .floor("accepted", args.tier.pick(20_000, 400_000))
-    .floor("rejected_forgeries", args.tier.pick(10_000, 200_000))
-    .floor("mutants", args.tier.pick(1_000_000, 30_000_000))
-    .floor("fixtures_swept_exhaustively", args.tier.pick(300, 6_000))
-    .floor("fixtures_swept_randomly", args.tier.pick(100, 2_000))
+    .floor("accepted", args.tier.pick(20_000, 200_000))
+    .floor("rejected_forgeries", args.tier.pick(10_000, 100_000))
+    .floor("mutants", args.tier.pick(800_000, 10_000_000))
+    .floor("fixtures_swept_exhaustively", args.tier.pick(150, 2_000))
+    .floor("fixtures_swept_randomly", args.tier.pick(50, 600))
     .explain("Phase A: V1 / V2 (0-3 subintents) / signed partial transactions with 0-16 signature slots per intent over both curves: honest, wrong hash (random / other intent's hash = swapped signature / bit flip), Ed25519 key-field mismatch, corrupted bytes, duplicate signers, notary as signer, notary forged (wrong key, wrong hash, other curve, corrupted). Phase B: every byte of short clean transactions xored with 8 single-bit masks, 0xff and a random mask; 3000 random byte mutations of long ones.");
     if let Some(path) = &args.replay {
         return replay(args, spec, path);
